@@ -320,6 +320,8 @@ class Translator:
         k = self.key(node)
         if k in self.consts:
             term, typ = self.consts[k]
+            if "{st}" in term and "__st" in env:
+                term = term.replace("{st}", env["__st"].term)        # a test the spec maps to the state record
             return V(term, typ)
         if k in self.places:
             if k in self.pairdicts:
